@@ -435,6 +435,7 @@ class VerifyAttrs(object):
         if node:
             if arg.init is not None:
                 node._has_default_arg = True
+                node._has_found_default = True
             elif node._has_found_default is True:
                 raise RuntimeError("Expected default value for %s" % argname)
 
